@@ -348,3 +348,25 @@ V("C16", "expression-error-not-contained", "F", "R3", EXP, "        except (Expr
 V("C16", "conflict-error-unmapped", "F", "R1", R + "cli/common.py", "        except (GlobalLicensingConflictError, OSError) as error:", "        except OSError as error:")
 V("C16", "dep5-valueerror-unhandled", "F", "R1", GLP, "        except (DebianError, ValueError) as error:", "        except DebianError as error:")
 V("C16", "toml-syntax-unhandled", "F", "R1", GLP, "        except tomlkit.exceptions.TOMLKitError as error:", "        except tomlkit.exceptions.EmptyKeyError as error:")
+
+# ----------------------------------------------------------------- C14
+V("C14", "end-pattern-unsorted-again", "F", "R0", EXP, "        sorted({\n            r\"(?:{})*\".format(item)", "        list({\n            r\"(?:{})*\".format(item)")
+V("C14", "tomls-in-walk-order", "F", "R3", GLP, "        found.sort(key=lambda toml: toml.directory.parts)\n", "")
+V("C14", "first-unused-license-decides", "F", "R1", RPT,
+  "        self._is_compliant = not any(", "        if self.unused_licenses and next(iter(self.unused_licenses)).startswith('LicenseRef-'):\n            return True\n        self._is_compliant = not any(")
+V("C14", "imap-unordered", "F", "R2", RPT, "            results: Iterable[_MultiprocessingResult] = pool.map(\n                container, files\n            )", "            results: Iterable[_MultiprocessingResult] = list(pool.imap_unordered(\n                container, files\n            ))")
+V("C14", "first-toml-wins", "F", "R1", PRJ, "        tomls = [ReuseTOML.from_file(item.path) for item in found]\n", "        tomls = [ReuseTOML.from_file(item.path) for item in found]\n        if found[0].path.name != 'REUSE.toml':\n            tomls = tomls[:1]\n")
+V("C14", "bom-sections-unsorted", "F", "R1", RPT, "reports = sorted(self.file_reports, key=lambda x: x.name)", "reports = list(self.file_reports)")
+V("C14", "concluded-without-simplify", "F", "R1", RPT, "                .simplify()\n                .render()", "                .render()")
+V("C14", "regex-from-set", "F", "R1", R + "vcs.py", "        return path in self._all_ignored_files\n\n    def is_submodule(self, path: StrPath) -> bool:\n        return any(",
+  "        import re as _re\n        if _re.match('|'.join(str(p) for p in self._all_ignored_files), str(path)):\n            return True\n        return path in self._all_ignored_files\n\n    def is_submodule(self, path: StrPath) -> bool:\n        return any(")
+V("C14", "sorted-join-ok", "S", "", RPT, "        report.copyright = \"\\n\".join(\n            sorted(", "        report.copyright = \"\\n\".join(\n            sorted(")
+
+# ----------------------------------------------------------------- C10
+V("C10", "merge-in-set-order-again", "F", "R1", CPP, "    for line in sorted(copyright_lines):", "    for line in copyright_lines:")
+V("C10", "render-unsorted-contributors", "F", "R1", HDP, "        contributor_lines=sorted(reuse_info.contributor_lines),", "        contributor_lines=list(reuse_info.contributor_lines),")
+V("C10", "new-ambiguous-style", "F", "R2", R + "comment.py", '    SINGLE_LINE = "%"\n    INDENT_AFTER_SINGLE = " "\n    SHEBANGS = ["% !TEX", "%!TEX", "#!"]', '    SINGLE_LINE = "%"\n    INDENT_AFTER_SINGLE = " "\n    MULTI_LINE = MultiLineSegments("%{", "", "%}")\n    SHEBANGS = ["% !TEX", "%!TEX", "#!"]')
+V("C10", "blank-header-lines-unmarked", "F", "R3", R + "comment.py", "            line_result = cls.SINGLE_LINE\n            if line:\n                line_result += cls.INDENT_AFTER_SINGLE + line\n            result.append(line_result)\n        return \"\\n\".join(result)\n\n    @classmethod\n    def _create_comment_multi",
+  "            line_result = \"\"\n            if line:\n                line_result = cls.SINGLE_LINE + cls.INDENT_AFTER_SINGLE + line\n            result.append(line_result)\n        return \"\\n\".join(result)\n\n    @classmethod\n    def _create_comment_multi")
+V("C10", "separator-after-existing-header", "F", "R5", HDP, '        if not has_existing_header and not after.startswith("\\n"):', '        if not after.startswith("\\n"):')
+V("C10", "lisp-regexp-needs-two", "F", "R3", R + "comment.py", 'SINGLE_LINE_REGEXP = re.compile(r"^;+\\s*")', 'SINGLE_LINE_REGEXP = re.compile(r"^;;;;+\\s*")')
